@@ -476,10 +476,9 @@ theorem dacExport_spec (a : DAC) (h : WFDacInts a) : dacExport a = .ok (specDacB
     h.dflt, h.vu, specDacBytes]
 
 theorem dacParse_spec (rows : List DatRow) (a : DAC) (h : WFDacInts a) (fam : String) (row : DatRow)
-    (ha : ambassador rows a.socc = some fam) (hr : latestRow rows fam = some row) (hl : Int)
-    (hh : DatConsts.dacRotHashLength row.basedOnEle row.sha256Always
-      (if row.dacVersionSwapped then a.minor else a.major) (if row.dacVersionSwapped then a.major else a.minor) = .ok hl)
-    (hlen : a.rkthHash.length = hl.toNat) (t : Bytes) :
+    (ha : ambassador rows a.socc = some fam) (hr : latestRow rows fam = some row)
+    (hlen : a.rkthHash.length = dacRotHashLen row.basedOnEle row.sha256Always
+      (if row.dacVersionSwapped then a.minor else a.major) (if row.dacVersionSwapped then a.major else a.minor)) (t : Bytes) :
     dacParse rows (specDacBytes (if row.dacVersionSwapped then a.minor else a.major)
       (if row.dacVersionSwapped then a.major else a.minor) a ++ t) = .ok a := by
   have hv : a.major < 65536 ∧ a.minor < 65536 := by
@@ -490,10 +489,9 @@ theorem dacParse_spec (rows : List DatRow) (a : DAC) (h : WFDacInts a) (fam : St
   unfold dacParse
   simp only [specDacBytes, List.append_assoc]
   cases hs : row.dacVersionSwapped <;>
-  simp [hs] at hh <;>
+  simp [hs] at hlen <;>
   simp [rd_append, leEnc_length, leDec_leEnc2, leDec_leEnc4, hv.1, hv.2, h.socc, h.rev, h.pinned, h.dflt, h.vu, h.uuid,
-    h.challenge, ha, hr, hh, hlen.symm, hs, h.ver, map_ok']
-
+    h.challenge, ha, hr, hlen.symm, hs, h.ver, map_ok']
 
 
 /-- the bytes SPSDK hashes for one RoT key: RSA `export(exp_length=3)` = modulus ‖ 3-byte exponent, ECC `export()` = X ‖ Y -/
@@ -559,9 +557,11 @@ theorem dcKeyBytes_ecc_length (cv : Spec.Curve) (x y : Nat) : (dcKeyBytes (.ecc 
 theorem curve_tables (cv : Spec.Curve) :
     eccHashBits cv.coordSize = some (cv.hashAlg.size * 8) ∧ hashOfBits (cv.hashAlg.size * 8) = some cv.hashAlg ∧
     0 < cv.hashAlg.size ∧ cv.coordSize * 2 / 2 = cv.coordSize ∧
-    DatConsts.eccTableHashBitsExpr = "(len(self) - len(self.flags)) // self.flags.cnt_root_cert * 8" ∧
-    DatConsts.eccSingleKeyHashBitsExpr = "RotMetaEcc.HASH_SIZES[self.rot_pub.coordinate_size]" := by
+    eccTableHash cv.hashAlg.size = .ok cv.hashAlg ∧ eccSingleKeyHash (cv.coordSize * 2) = .ok cv.hashAlg := by
   cases cv <;> decide
+
+theorem flagsValid_ok (used cnt : Nat) (h : used < cnt) (hc : cnt ≤ 4) : flagsValid used cnt = true := by
+  simp [flagsValid, h, hc]
 
 theorem rot_hash_ecc (c : CryptoOps) (hl : CryptoLaws c) (cv : Spec.Curve) (ks : List Spec.Key)
     (h1 : 1 ≤ ks.length) (h4 : ks.length ≤ 4) (hk : ∀ k ∈ ks, ∃ x y, k = .ecc cv x y)
@@ -574,11 +574,8 @@ theorem rot_hash_ecc (c : CryptoOps) (hl : CryptoLaws c) (cv : Spec.Curve) (ks :
     intro k hk'; obtain ⟨x, y, rfl⟩ := hk k hk'; exact dcKeyBytes_ecc_length cv x y
   have hkh : ∀ k ∈ ks, c.hash cv.hashAlg (dcKeyBytes k) = Spec.keyHash c k := by
     intro k hk'; obtain ⟨x, y, rfl⟩ := hk k hk'; rfl
-  have hval : DatConsts.flagsValidate (used : Int) ((ks.map dcKeyBytes).length : Int) = .ok true := by
-    simp only [DatConsts.flagsValidate, List.length_map]
-    have a1 : ¬ ((ks.length : Int) > 4) := by omega
-    have a2 : ¬ ((used : Int) + 1 > (ks.length : Int)) := by omega
-    simp [a1, a2]
+  have hval : flagsValid used (ks.map dcKeyBytes).length = true := by
+    rw [List.length_map]; exact flagsValid_ok used ks.length hu h4
   have hid : (ks.map ((fun (x : Spec.Key × Bool) => x.1) ∘ fun k => (k, false))) = ks := by
     rw [show ((fun (x : Spec.Key × Bool) => x.1) ∘ fun k => (k, false)) = id from rfl]; simp
   simp only [Spec.rotkh, Spec.rotkhCa, List.map_map, hid]
@@ -587,13 +584,13 @@ theorem rot_hash_ecc (c : CryptoOps) (hl : CryptoLaws c) (cv : Spec.Curve) (ks :
     have hu0 : used = 0 := by simpa using hu
     subst hu0
     have hl0 := hlenk k (by simp)
-    have hv1 : DatConsts.flagsValidate 0 1 = .ok true := by decide
+    have hv1 : flagsValid 0 1 = true := by decide
     simp only [eccMetaOfKeys, List.map_cons, List.map_nil, hl0, hhalf, List.any_cons, List.any_nil, hb, hob, hval] at hm
     simp [hv1] at hm
     simp only [List.map_cons, List.map_nil, List.getElem?_cons_zero, Option.some.injEq] at hp
     simp only [calculateHash, hcls, ← hm, crtkTable]
     simp only [List.length_nil, Nat.not_lt_zero, if_false, List.isEmpty_nil, if_true, ← hp, hl0, gt_iff_lt]
-    simp only [eccSingleKeyHash, hex2, beq_self_eq_true, if_true, hhalf, hb, hob, Spec.rotkhV21]
+    simp only [hex2, Spec.rotkhV21]
     rw [hkh k (by simp)]
   | k :: k2 :: rest, _, _, hk, hu, hm, hp, hlenk, hkh, hval =>
     have hl0 := hlenk k (by simp)
@@ -633,7 +630,7 @@ theorem rot_hash_ecc (c : CryptoOps) (hl : CryptoLaws c) (cv : Spec.Curve) (ks :
     have hdiv : (rest.length + 1 + 1) * cv.hashAlg.size / (rest.length + 1 + 1) = cv.hashAlg.size :=
       Nat.mul_div_cancel_left _ (by omega)
     simp only [Bool.false_eq_true, if_false, List.length_cons, hflen, hdiv, Nat.add_eq_zero_iff, Nat.succ_ne_zero, and_false]
-    simp only [eccTableHash, hex1, beq_self_eq_true, if_true, hob, Spec.rotkhV21, Spec.ctrkTable, hkalg]
+    simp only [hex1, Spec.rotkhV21, Spec.ctrkTable, hkalg]
 
 
 end SpsdkVerif.Dat
